@@ -345,10 +345,11 @@ func (t *UpdateTran) Output(th *core.Thread, table string, rec core.Record) {
 		ix := ts.Indexes[i]
 		keys[i] = ix.Ixspec.Key(rec)
 		if ix.Mode == 'k' && len(ix.Columns) == 0 {
+			// register the read first so that a "duplicate key" result is validated too
+			t.Read(table, i, "", "")
 			if ti.Nrows > 0 {
 				panic(fmt.Sprint("duplicate key: () in ", table))
 			}
-			t.Read(table, i, "", "")
 		} else {
 			t.dupOutputBlock(table, i, ix, ti.Indexes[i], rec, keys[i])
 		}
@@ -387,11 +388,12 @@ func (t *UpdateTran) callTrigger(th *core.Thread, table string, oldrec, newrec c
 func (t *UpdateTran) dupOutputBlock(table string, iIndex int, ix schema.Index,
 	ov *index.Overlay, rec core.Record, key string) {
 	if needsDupCheck(ix, rec) {
+		// register the read first so that a "duplicate key" result is validated too
+		t.Read(table, iIndex, key, key)
 		if ov.Lookup(key) != 0 {
 			panic(fmt.Sprint("duplicate key: ",
 				str.Join(",", ix.Columns), " in ", table))
 		}
-		t.Read(table, iIndex, key, key)
 	}
 }
 
